@@ -588,6 +588,15 @@ for _t in ("quick", "thorough"):
     _add("C07", _t, H("ZZ_C04_LateUpdate", reach=["three-ticks"], bounds="through the Store: a cost-changing TTL update applied 2^31 ns late; region sizes, policy total and resident cost agree afterwards"))
 for _t in ("quick", "thorough"):
     _add("C18", _t, H("ZZ_C01_Linearizable", params={"PRE": 0, "LOADING": 1}, reach=["history-complete"], bounds="loading cache with the happens-before monitor: a hit never reads the entry's value outside the shard lock (with the entry pool that read can yield another key's value)"))
+for _pid in ("C15", "C05", "C02", "C14"):
+    for _t in ("quick", "thorough"):
+        _add(_pid, _t, H("ZZ_C15_FailedSecondaryDelete", reach=["delete-returned"], bounds="hybrid Delete with the secondary store's Delete failing or succeeding by choice; retry after recovery"))
+for _pid in ("C06", "C14"):
+    for _t in ("quick", "thorough"):
+        _add(_pid, _t, H("ZZ_C06_OversizePromotion", reach=["promoted-or-not"], bounds="hybrid Get of a key whose copy in the secondary tier has a recorded cost 1..6 (symbolic), MaxSize 2"),
+             H("ZZ_C06_OversizePromotion", params={"LOADING": 1}, reach=["promoted-or-not"], bounds="hybrid loading Get; secondary copy with recorded cost 1..6 (symbolic), MaxSize 2"))
+PROPS["C06"]["level_note"] += " Round 6: wider history menu (Range, loading Gets, entry pool); ZZ_C06_OversizePromotion - the MaxSize rule on the promotion path from the secondary tier."
+PROPS["C15"]["level_note"] += " Round 6: ZZ_C15_FailedSecondaryDelete - failing secondary Delete (the failure schedule now includes Delete, not only Set)."
 PROPS["C20"]["level_note"] += " Round 6: the executor no longer assumes a queue order among receivers blocked on one unbuffered channel (which of them takes a rendezvous is a scheduling choice); with that ZZ_C20_TwoBarriers found the anonymous wake-up defect repaired in c8a6bbf. ZZ_C20_BarrierWithBusyShard: barrier while a loader holds the victim's shard lock (instruction budget 200000 per path: a retry loop that spins while the loader is not scheduled ends as an unwinding failure)."
 PROPS["C13"]["level_note"] += " Round 6: ZZ_C13_FailedLoadCostFn (cost function only defined on loaded values, failing loader; found the defect repaired in ed1b607), ZZ_C06_Loader and the wider history menu (loading Gets with symbolic loader cost / cost function / TTL) listed here for the admitted-like-a-Set clause."
 PROPS["C04"]["level_note"] += " Round 6: ZZ_C04_AfterLoad - deadlines restored by LoadCache are collected on time by the wheel of the new cache (saved uptime per configuration so that every wheel level is visited; TTL, downtime symbolic)."
